@@ -38,6 +38,7 @@ func (propC10) Gen(r *Rng, tier string) *World {
 	k.Stateless = 0.5
 	k.NowOp = r.P(0.6)
 	k.FailOp = r.P(0.5)
+	k.CountOp = r.P(0.5)
 	k.PUnbound = 0
 	k.NoSetConst = true
 	k.PIll = []float64{0, 0.03, 0.08}[r.Intn(3)]
@@ -57,7 +58,7 @@ func (propC10) Gen(r *Rng, tier string) *World {
 	w.Cfg.DirStyle = r.Intn(6)
 	w.Cfg.ViaAPI = r.P(0.4)
 	w.Cfg.Event = []string{"", "", "", "report"}[r.Intn(4)]
-	w.Masks = []int{0, OptCF, r.Intn(16) | OptCF, r.Intn(16)}
+	w.Masks = []int{0, OptCF, r.Intn(16) | OptCF, r.Intn(16), []int{OptRN, OptFE, OptRN | OptFE}[r.Intn(3)]}
 	ops := SpecMap(w.Cfg.Ops)
 	// compile phase: optionally make stateless operators fail on particular arguments
 	cp := Plan{Kind: "compile"}
@@ -263,6 +264,12 @@ func (propC10) Run(w *World, st *Stats) *Violation {
 		return viol(w, "compile-error", "Compile rejected a well-formed program: %v", err0)
 	}
 	baseDump := oneLine(c0.RunEnv(NewEnv(ops, &Plan{}), "dump").Text)
+	usesCount := false
+	w.Prog.Walk(func(n *Node) {
+		if n.K == KOp && ops[n.Name] != nil && ops[n.Name].Kind == "count" {
+			usesCount = true
+		}
+	})
 	for _, mask := range masks {
 		mw := w.Clone()
 		mw.Masks = []int{mask}
@@ -346,6 +353,20 @@ func (propC10) Run(w *World, st *Stats) *Violation {
 			if _, ood := refS.Err.(*OutOfDomain); ood {
 				st.Skipped++
 				continue
+			}
+			if usesCount && mask&(OptRO|OptCF) != 0 {
+				// reordering changes the order of calls and folding may drop a
+				// sub-expression a constant decides: both legitimately change what
+				// a call-counting operator returns
+				continue
+			}
+			if mask&(OptRO|OptCF) == 0 && refS.Err == nil {
+				// neither flattening nor fast evaluation may add, drop or reorder an
+				// operator application: the calls are those of the SOURCE tree
+				wantS := opCalls(refS.Env.Log, ops, false)
+				if d := logDiff(&w.Cfg, wantS, got); d != "" {
+					return viol(kw, "op-calls-differ-from-source", "evaluation %d under %s (no folding, no reordering): the operator applications differ from left-to-right evaluation of the source\n%s\nsource: %s\ndump:   %s", ci, maskName(mask), d, w.Prog.Src(), dump)
+				}
 			}
 			if refS.Err == nil && out.Err == nil && !ValEq(refS.Val, out.Val) {
 				return viol(kw, "stale-or-wrong-value", "evaluation %d at clock %d under %s: reference on the source returns %s, engine returns %s\ndump: %s", ci, p.Clock, maskName(mask), ValStr(refS.Val), ValStr(out.Val), dump)
